@@ -317,6 +317,25 @@ def compare(case, impl, model):
         want = [list(w) for w in windows_want(case, m["model"])] if isinstance(m["model"], list) else m["model"]
         if want != got:
             out.append(f"utterance {u['id']}: windows written {got}, model {want}")
+            continue
+        # the token chunk written for each window against the model of the worker (`dirChunks`, the function
+        # the C10_dir theorems are about; it has the code's `+= start`)
+        mc = m.get("model_chunks")
+        if not case["opts"]["has_ref"] or not isinstance(mc, list):
+            continue
+        by_win = {}
+        for c in mc:
+            by_win.setdefault((c["win"][0], c["win"][1]), c["toks"])
+        ents = impl["utts"].get(u["id"], [])
+        if case["opts"]["format"] == "idx":
+            pairs = list(zip(ents, [c["toks"] for c in mc]))
+        else:
+            pairs = [(e, by_win.get((e["start"], e["end"]))) for e in ents]
+        for e, toks in pairs:
+            if e.get("ref") != toks:
+                out.append(f"utterance {u['id']} window [{e['start']},{e['end']}): token chunk written "
+                           f"{e.get('ref')}, model {toks}")
+                break
     return out
 
 
